@@ -31,6 +31,7 @@ type aqP struct {
 	Decl      string
 	Lex       string // purely lexical serialisation variant (lexVals)
 	HTTP      string // HTTP-level shape (world.HTTPShapes)
+	Dirty     string // "" | failed-writes (dirtyWrites)
 	Sibling   string // another provider instance alive in the same process (world.SiblingKinds)
 	CType     string // "" text/xml; charset=utf-8 | text-xml-bare | soap12 (application/soap+xml) | soapaction (SOAPAction header present)
 	ID        string // "" ok | special
@@ -185,6 +186,9 @@ func aqBuild(p aqP) (*world.World, *http.Request, *aqTruth) {
 	}
 	if _, err := w.Store.RegisterSP("app-b", msg.SPB().XML()); err != nil {
 		panic(err)
+	}
+	if p.Dirty != "" {
+		dirtyWrites(w)
 	}
 	alice := aqUser(p.User)
 	w.Store.AddUser(alice)
@@ -433,6 +437,8 @@ func (p *aqP) set(name, val string) {
 		p.Lex = val
 	case "HTTP":
 		p.HTTP = val
+	case "Dirty":
+		p.Dirty = val
 	case "Sibling":
 		p.Sibling = val
 	case "CType":
